@@ -6,8 +6,8 @@
    multiplication algorithms, modular inverse, the 10x26 / 8x32 / struct-int128 / asm configurations,
    SHA-256/HMAC/RFC 6979) is tied by the differential correspondence of ./check C05 on a build matrix. *)
 From Coq Require Import ZArith List Bool.
-Require Import Kernel.CSem Kernel.Field5x52 Kernel.Field5x52Sqr Kernel.CtPrimitives Kernel.FieldNormalize Kernel.Scalar4x64 Kernel.ScalarMul512 Kernel.ScalarSqr512 Kernel.ScalarReduce512 Kernel.Scalar8x32Check Kernel.Scalar8x32Mul512 Kernel.Scalar8x32Reduce512 Kernel.Scalar8x32Mul Kernel.FieldPrims.
-Require Import Gen.fe_mul_inner Gen.fe_sqr_inner Gen.scalar_cmov Gen.fe_impl_cmov Gen.fe_impl_normalize Gen.scalar_check_overflow Gen.scalar_is_high Gen.scalar_mul_512 Gen.scalar_sqr_512 Gen.scalar_reduce_512 Gen.scalar8x32_mul_512 Gen.scalar8x32_sqr_512 Gen.scalar8x32_check_overflow Gen.scalar8x32_reduce_512 Gen.scalar8x32_mul Gen.scalar8x32_sqr Gen.fe_impl_add Gen.fe_impl_negate_unchecked Gen.fe_impl_half Gen.scalar_negate.
+Require Import Kernel.CSem Kernel.Field5x52 Kernel.Field5x52Sqr Kernel.CtPrimitives Kernel.FieldNormalize Kernel.Scalar4x64 Kernel.ScalarMul512 Kernel.ScalarSqr512 Kernel.ScalarReduce512 Kernel.Scalar8x32Check Kernel.Scalar8x32Mul512 Kernel.Scalar8x32Reduce512 Kernel.Scalar8x32Mul Kernel.FieldPrims Kernel.ScalarMul4x64 Kernel.ScalarMul.
+Require Import Gen.fe_mul_inner Gen.fe_sqr_inner Gen.scalar_cmov Gen.fe_impl_cmov Gen.fe_impl_normalize Gen.scalar_check_overflow Gen.scalar_is_high Gen.scalar_mul_512 Gen.scalar_sqr_512 Gen.scalar_reduce_512 Gen.scalar8x32_mul_512 Gen.scalar8x32_sqr_512 Gen.scalar8x32_check_overflow Gen.scalar8x32_reduce_512 Gen.scalar8x32_mul Gen.scalar8x32_sqr Gen.scalar_mul_512b Gen.scalar_sqr_512b Gen.scalar_mul Gen.scalar_sqr Gen.fe_impl_add Gen.fe_impl_negate_unchecked Gen.fe_impl_half Gen.scalar_negate.
 Import ListNotations.
 Local Open Scope Z_scope.
 
@@ -107,6 +107,25 @@ Theorem scalar8x32_reduce_512_correct : forall l0 l1 l2 l3 l4 l5 l6 l7 l8 l9 l10
     val8w r0 r1 r2 r3 r4 r5 r6 r7 = val16w l0 l1 l2 l3 l4 l5 l6 l7 l8 l9 l10 l11 l12 l13 l14 l15 mod N256).
 Proof. exact Kernel.Scalar8x32Reduce512.scalar8x32_reduce_512_correct. Qed.
 Print Assumptions scalar8x32_reduce_512_correct.
+(* The default (4x64) configuration: secp256k1_scalar_mul and secp256k1_scalar_sqr translated as calls to the generated mul_512 /
+   sqr_512 / reduce_512 and proved by composition: a*b mod n, canonical, for ALL limbs. *)
+Theorem scalar_mul_correct : forall a0 a1 a2 a3 b0 b1 b2 b3,
+  0 <= a0 < 2^64 -> 0 <= a1 < 2^64 -> 0 <= a2 < 2^64 -> 0 <= a3 < 2^64 ->
+  0 <= b0 < 2^64 -> 0 <= b1 < 2^64 -> 0 <= b2 < 2^64 -> 0 <= b3 < 2^64 ->
+  forall Q : Z -> Z -> Z -> Z -> Prop,
+  (forall r0 r1 r2 r3, (0 <= r0 < 2^64 /\ 0 <= r1 < 2^64 /\ 0 <= r2 < 2^64 /\ 0 <= r3 < 2^64) /\
+     val4 r0 r1 r2 r3 = (val4 a0 a1 a2 a3 * val4 b0 b1 b2 b3) mod N256 -> Q r0 r1 r2 r3) ->
+  scalar_mul_k a0 a1 a2 a3 b0 b1 b2 b3 Q.
+Proof. exact Kernel.ScalarMul.scalar_mul_correct. Qed.
+Print Assumptions scalar_mul_correct.
+Theorem scalar_sqr_correct : forall a0 a1 a2 a3,
+  0 <= a0 < 2^64 -> 0 <= a1 < 2^64 -> 0 <= a2 < 2^64 -> 0 <= a3 < 2^64 ->
+  forall Q : Z -> Z -> Z -> Z -> Prop,
+  (forall r0 r1 r2 r3, (0 <= r0 < 2^64 /\ 0 <= r1 < 2^64 /\ 0 <= r2 < 2^64 /\ 0 <= r3 < 2^64) /\
+     val4 r0 r1 r2 r3 = (val4 a0 a1 a2 a3 * val4 a0 a1 a2 a3) mod N256 -> Q r0 r1 r2 r3) ->
+  scalar_sqr_k a0 a1 a2 a3 Q.
+Proof. exact Kernel.ScalarMul.scalar_sqr_correct. Qed.
+Print Assumptions scalar_sqr_correct.
 (* The callers secp256k1_scalar_mul / secp256k1_scalar_sqr of the 32-bit-limb code, translated as CALLS (continuation-passing) to the
    three functions above and proved by composing their theorems (weakest-precondition form: for every continuation Q that holds of all
    canonical residues of the product, the generated code run with Q holds): the result is a*b mod n, canonical, for ALL limbs. *)
